@@ -1,12 +1,117 @@
 """C12 - finalize locks the configuration; unlock_config always restores the lock."""
+import os
+import sys
+
+sys.path.insert(0, os.path.join(os.path.dirname(os.path.dirname(os.path.dirname(
+    os.path.abspath(__file__)))), 'fixtures'))
+
 import gin
 from gin import config as gc
 from vf import rt
 from vf import world
+import vfx.alpha.mod as _VFXA   # a plain module (nothing registered at import): target of `import` statements
 
 
 class Boom(Exception):
   pass
+
+
+def _wide():
+  """Deep observation of the configuration stores: keys of _CONFIG with the IDENTITY of every bound value,
+  provenance keys, the import set, the constants (names and value identities), the registry selectors and
+  the selector renames.  Taken and compared natively (identity only: S-values are never inspected)."""
+  with rt.native():
+    return dict(cfg={k: dict(d) for k, d in gc._CONFIG.items()},
+                prov={k: sorted(d) for k, d in gc._CONFIG_PROVENANCE.items()},
+                imports=set(gc._IMPORTS),
+                consts=dict(gc._CONSTANTS.items()),
+                registry=sorted(gc._REGISTRY._selector_map),
+                renamed=dict(gc._RENAMED_SELECTORS))
+
+
+def _val_same(a, b):
+  if a is b:
+    return True
+  return type(a) is type(b) and type(a) in (int, str, bool, float, tuple) and a == b
+
+
+def _cfg_cmp(a, b):
+  """(native) None when the two {key: {param: value}} differ in keys / params / plain values; otherwise the list of
+  value pairs that are neither identical nor plain literals (left to a traced == by the caller)."""
+  pend = []
+  if set(a) != set(b):
+    return None
+  for k in a:
+    if set(a[k]) != set(b[k]):
+      return None
+    for p_ in a[k]:
+      x, y = a[k][p_], b[k][p_]
+      if _val_same(x, y):
+        continue
+      if type(x) in (int, str, bool, float, tuple) or type(y) in (int, str, bool, float, tuple):
+        return None
+      pend.append((x, y))
+  return pend
+
+
+def _cfg_same(a, b):
+  """{key: {param: value}} equal: same keys, same params, identical (or equal) values."""
+  with rt.native():
+    pend = _cfg_cmp(a, b)
+  if pend is None:
+    return False
+  for x, y in pend:
+    if not (x == y):
+      return False
+  return True
+
+
+def _wide_diff(a, b, parts=('cfg', 'prov', 'imports', 'consts', 'registry', 'renamed')):
+  """Name of the first store that differs between two _wide() observations, or None."""
+  for part in parts:
+    if part == 'cfg':
+      if not _cfg_same(a['cfg'], b['cfg']):
+        return 'cfg'
+      continue
+    with rt.native():
+      if part == 'consts':
+        if set(a['consts']) != set(b['consts']) or any(a['consts'][n] is not b['consts'][n] for n in a['consts']):
+          return 'consts'
+      elif a[part] != b[part]:
+        return part
+  return None
+
+
+def _cfg_plus(cfg, items):
+  """Copy of an observed cfg with (scope, selector, param, value) entries set."""
+  with rt.native():
+    out = {k: dict(d) for k, d in cfg.items()}
+    for scope, sel, param, val in items:
+      out.setdefault((scope, sel), {})[param] = val
+    return out
+
+
+def _cleanup_vfx():
+  with rt.native():
+    for sel in list(gc._REGISTRY._selector_map):
+      if sel.startswith('vfx.alpha.'):
+        gc._REGISTRY.pop(sel)
+    for obj in list(gc._INVERSE_REGISTRY):
+      if (getattr(obj, '__module__', '') or '') == 'vfx.alpha.mod':
+        del gc._INVERSE_REGISTRY[obj]
+    gc._RENAMED_SELECTORS.clear()
+
+
+BIND_KEYS = ["'vw.dflt.a'", "('', 'vw.dflt', 'a')", 'a ParsedBindingKey made before the lock',
+             "'vw.nosuch.x' (unknown configurable)"]
+PARSE_KINDS = ['two bindings (one scoped)', 'macro statement m = 1', 'import statement alone',
+               "include 'f.gin' (in-memory file with one binding)", "parse_config_file('f.gin')",
+               "parse_config_files_and_bindings(['f.gin'], [binding], finalize_config=False)",
+               'parse_config_files_and_bindings([], [], finalize_config=True)',
+               'dynamic registration: import + binding whose value registers vfx.alpha.mod.fn',
+               "gin.constant('vwc12.K', 1)", 'import statement followed by a binding']
+DYN_TEXT = ('from __gin__ import dynamic_registration\nimport vfx.alpha.mod as am\n'
+            'am.consumer.p = @am.fn()\n')
 
 
 def _snapshot():
@@ -22,11 +127,12 @@ def _snapshot():
   return out
 
 
-def c12_step(locked: bool, has: bool, op: int, body: int, regkind: int, v0: int, v1: int, v2: int) -> bool:
+def c12_step(locked: bool, has: bool, op: int, body: int, regkind: int, sub: int, v0: int, v1: int, v2: int) -> bool:
   """
-  pre: 0 <= op < 6 and 0 <= body < 9 and 0 <= regkind < 4
+  pre: 0 <= op < 6 and 0 <= body < 9 and 0 <= regkind < 6 and 0 <= sub < 10
   """
   world.fresh()
+  _cleanup_vfx()
   locked, has = rt.flag(locked), rt.flag(has)
   op = rt.pick(op, 6)
   body = rt.pick(body, 9)
@@ -34,9 +140,24 @@ def c12_step(locked: bool, has: bool, op: int, body: int, regkind: int, v0: int,
     rt.discard()            # bodies 6/7 finalize inside the block: only possible when entered unlocked
   if op != 5 and body != 0:
     rt.discard()
-  regkind = rt.pick(regkind, 4)
+  regkind = rt.pick(regkind, 6)
   if op != 2 and regkind != 0:
     rt.discard()
+  # sub: key shape of the bind (op 0) / statement kind or entry point of the parse (op 1)
+  if op in (0, 1):
+    sub = rt.pick(sub, 10)
+    if op == 0 and sub >= len(BIND_KEYS):
+      rt.discard()
+  else:
+    if sub != 0:
+      rt.discard()
+    sub = 0
+  pbk = None
+  if op == 0 and sub == 2:
+    pbk = gc.ParsedBindingKey.parse('vw.dflt.a')
+  if op == 1 and sub in (3, 4, 5):
+    with rt.native():
+      world.use_mem_fs({'f.gin': 'vw.dflt.b = 7\n'})
   # a class one of whose methods is registered on its own BEFORE the config is locked
   pre_cls = None
   if op == 2 and regkind in (2, 3):
@@ -56,16 +177,45 @@ def c12_step(locked: bool, has: bool, op: int, body: int, regkind: int, v0: int,
   if gin.config_is_locked() != locked:
     return False
   before = _snapshot()
-  rt.sig(('step', locked, has, op, body), nontrivial=locked or op == 5)
+  wbefore = _wide()
+  wafter = None
+  rt.sig(('step', locked, has, op, body, regkind, sub), nontrivial=locked or op == 5)
   exc = None
   registered = None
   try:
     if op == 0:
-      gin.bind_parameter('vw.dflt.a', v1)
-    elif op == 1:
+      if sub == 0:
+        gin.bind_parameter('vw.dflt.a', v1)
+      elif sub == 1:
+        gin.bind_parameter(('', 'vw.dflt', 'a'), v1)
+      elif sub == 2:
+        gin.bind_parameter(pbk, v1)
+      else:
+        gin.bind_parameter('vw.nosuch.x', v1)
+    elif op == 1 and sub == 0:
       with rt.native():
         text = 'vw.dflt.b = 7\ns/vw.dflt.a = 8\n'
       gin.parse_config(text)
+    elif op == 1:
+      with rt.native():                  # everything concrete from here on: run natively
+        if sub == 1:
+          gin.parse_config('m = 1\n')
+        elif sub == 2:
+          gin.parse_config('import vfx.alpha.mod\n')
+        elif sub == 3:
+          gin.parse_config("include 'f.gin'\n")
+        elif sub == 4:
+          gin.parse_config_file('f.gin')
+        elif sub == 5:
+          gin.parse_config_files_and_bindings(['f.gin'], ['s/vw.dflt.a = 8'], finalize_config=False)
+        elif sub == 6:
+          gin.parse_config_files_and_bindings([], [], finalize_config=True)
+        elif sub == 7:
+          gin.parse_config(DYN_TEXT)
+        elif sub == 8:
+          gin.constant('vwc12.K', 1)
+        else:
+          gin.parse_config('import vfx.alpha.mod\nvw.dflt.a = 3\n')
     elif op == 2:
       with rt.native():
         def c12tmp(z=1):
@@ -74,14 +224,18 @@ def c12_step(locked: bool, has: bool, op: int, body: int, regkind: int, v0: int,
         class C12Plain:
           def __init__(self, z=1):
             self.z = z
-        c12tmp = [c12tmp, C12Plain, pre_cls, pre_cls][regkind]
+        c12tmp = [c12tmp, C12Plain, pre_cls, pre_cls, c12tmp, c12tmp][regkind]
         c12tmp.__name__ = 'c12tmp'
-        init_before = vars(c12tmp).get('__init__') if regkind else None
+        init_before = vars(c12tmp).get('__init__') if regkind in (1, 2, 3) else None
       registered = c12tmp
       if regkind == 1:
         gin.configurable('c12tmp', module='vw')(c12tmp)          # decorates the class in place
       elif regkind == 3:
         gin.register('c12tmp', module='vw')(c12tmp)
+      elif regkind == 4:
+        gin.configurable(c12tmp)                                  # bare decorator: name and module from the function
+      elif regkind == 5:
+        gin.register('c12tmp', module='vw')(c12tmp)               # register() on a function
       else:
         gin.external_configurable(c12tmp, 'c12tmp', module='vw')
     elif op == 3:
@@ -121,16 +275,18 @@ def c12_step(locked: bool, has: bool, op: int, body: int, regkind: int, v0: int,
   except Exception as e:
     exc = e
   finally:
+    wafter = _wide()                     # before the harness's own clean-up touches the registry
     if registered is not None:
       with rt.native():
-        if 'vw.c12tmp' in gc._REGISTRY:
-          gc._REGISTRY.pop('vw.c12tmp')
+        tmp_sel = 'vf.harness.c12.c12tmp' if regkind == 4 else 'vw.c12tmp'
+        if tmp_sel in gc._REGISTRY:
+          gc._REGISTRY.pop(tmp_sel)
           was_registered = True
         else:
           was_registered = False
         gc._INVERSE_REGISTRY.pop(registered, None)
         side_effect = None
-        if regkind and locked:
+        if regkind in (1, 2, 3) and locked:
           if vars(registered).get('__init__') is not init_before:
             side_effect = 'the class was decorated although the registration was rejected'
           if regkind in (2, 3):
@@ -148,10 +304,60 @@ def c12_step(locked: bool, has: bool, op: int, body: int, regkind: int, v0: int,
         gc._RENAMED_SELECTORS.clear()
   after = _snapshot()
   now_locked = gin.config_is_locked()
+  if op == 1 and sub == 7:
+    _cleanup_vfx()
+  # whole-store comparison, only where the operation must have changed nothing
+  must_be_unchanged = ((locked and op in (0, 1, 2)) or op == 3 or (op == 0 and sub == 3) or (op == 1 and sub == 6))
+  wdiff = _wide_diff(wbefore, wafter) if must_be_unchanged else None
+
+  if op == 1 and sub in (2, 8):
+    # an import statement alone / a constant: neither a binding nor a registration - the statement does not say
+    # whether it must raise under lock; it may not touch the bindings or the lock either way
+    if now_locked != locked:
+      return rt.no('lock state changed')
+    if _wide_diff(wbefore, wafter, ('cfg', 'prov', 'registry')):
+      return rt.no('bindings / registry changed by a statement that binds nothing')
+    return locked or exc is None
+  if op == 1 and sub == 6:
+    # finalize through parse_config_files_and_bindings: twice is an error, once locks
+    if locked:
+      return isinstance(exc, RuntimeError) and now_locked and wdiff is None
+    return exc is None and now_locked and wdiff is None
+  if op == 0 and sub == 3:
+    # unknown configurable: raises in either state (which exception wins under lock is not fixed by the statement)
+    return exc is not None and now_locked == locked and wdiff is None
+  if op in (0, 1) and sub != 0:
+    if locked:
+      if exc is None:
+        return rt.no('%s accepted under lock' % ((BIND_KEYS if op == 0 else PARSE_KINDS)[sub],))
+      if wdiff:
+        return rt.no('rejected operation changed %s' % (wdiff,))
+      return now_locked
+    if exc is not None or now_locked:
+      return False
+    if op == 0:
+      wantc = _cfg_plus(wbefore['cfg'], [('', 'vw.dflt', 'a', v1)])
+    elif sub == 1:
+      wantc = _cfg_plus(wbefore['cfg'], [('m', 'gin.macro', 'value', 1)])
+    elif sub in (3, 4):
+      wantc = _cfg_plus(wbefore['cfg'], [('', 'vw.dflt', 'b', 7)])
+    elif sub == 5:
+      wantc = _cfg_plus(wbefore['cfg'], [('', 'vw.dflt', 'b', 7), ('s', 'vw.dflt', 'a', 8)])
+    elif sub == 7:
+      with rt.native():
+        got = wafter['cfg'].get(('', 'vfx.alpha.am.consumer'), {}).get('p')
+        if not isinstance(got, gc.ConfigurableReference) or 'vfx.alpha.am.fn' not in wafter['registry']:
+          return rt.no('dynamic registration text not applied when unlocked')
+        wantc = _cfg_plus(wbefore['cfg'], [('', 'vfx.alpha.am.consumer', 'p', got)])
+    else:
+      wantc = _cfg_plus(wbefore['cfg'], [('', 'vw.dflt', 'a', 3)])
+    return _cfg_same(wafter['cfg'], wantc)
 
   if op in (0, 1, 2):
     if locked:
       ok = isinstance(exc, RuntimeError) and after == before and now_locked
+      if wdiff:
+        return rt.no('rejected operation changed %s' % (wdiff,))
       if op == 2:
         ok = ok and not was_registered
         if side_effect:
@@ -170,6 +376,8 @@ def c12_step(locked: bool, has: bool, op: int, body: int, regkind: int, v0: int,
       return after == want
     return was_registered and after == before
   if op == 3:
+    if wdiff:
+      return rt.no('finalize without hooks changed %s' % (wdiff,))
     if locked:
       return isinstance(exc, RuntimeError) and now_locked and after == before
     return exc is None and now_locked and after == before
@@ -193,99 +401,286 @@ def c12_step(locked: bool, has: bool, op: int, body: int, regkind: int, v0: int,
   return after == want
 
 
-HOOK_KINDS = ['absent', 'returns None', 'returns {}', "binds 'vw.dflt.b'", "binds 'dflt.a'",
-              "binds 'vw.dflt.a'", "binds ('', 'vw.dflt', 'a')", 'invalid key',
-              "binds 's/dflt.a'"]
-HOOK_KEYS = {3: 'vw.dflt.b', 4: 'dflt.a', 5: 'vw.dflt.a', 6: ('', 'vw.dflt', 'a'),
-             7: 'vw.nosuch.x', 8: 's/dflt.a'}
-HOOK_TARGET = {3: ('', 'b'), 4: ('', 'a'), 5: ('', 'a'), 6: ('', 'a'), 8: ('s', 'a')}
+import types as _types
+
+_A, _B, _SA = ('', 'vw.dflt', 'a'), ('', 'vw.dflt', 'b'), ('s', 'vw.dflt', 'a')
+# (what the hook does, mode, key factory, parameters it updates)
+#   modes: ok = valid key(s); unknown = the original invalid key (ValueError demanded); bad = a key ParsedBindingKey.parse
+#   refuses on another branch (any exception); two / raise / nonmap = the statement fixes only "clean outcome"
+HOOKS = [
+    ('absent', 'absent', None, ()),
+    ('returns None', 'none', None, ()),
+    ('returns {}', 'empty', None, ()),
+    ("binds 'vw.dflt.b'", 'ok', lambda: 'vw.dflt.b', (_B,)),
+    ("binds 'dflt.a'", 'ok', lambda: 'dflt.a', (_A,)),
+    ("binds 'vw.dflt.a'", 'ok', lambda: 'vw.dflt.a', (_A,)),
+    ("binds ('', 'vw.dflt', 'a')", 'ok', lambda: ('', 'vw.dflt', 'a'), (_A,)),
+    ('invalid key', 'unknown', lambda: 'vw.nosuch.x', ()),
+    ("binds 's/dflt.a'", 'ok', lambda: 's/dflt.a', (_SA,)),
+    # ---- widened vocabulary (hook kinds 9..29) ----
+    ("binds 's/vw.dflt.a'", 'ok', lambda: 's/vw.dflt.a', (_SA,)),
+    ("binds ('s', 'vw.dflt', 'a')", 'ok', lambda: ('s', 'vw.dflt', 'a'), (_SA,)),
+    ("binds ('s', 'dflt', 'a')", 'ok', lambda: ('s', 'dflt', 'a'), (_SA,)),
+    ("returns a mappingproxy {'vw.dflt.a': w}", 'proxy', lambda: 'vw.dflt.a', (_A,)),
+    ("binds ParsedBindingKey.parse('dflt.a')", 'ok', lambda: gc.ParsedBindingKey.parse('dflt.a'), (_A,)),
+    ("binds 's/t/dflt.a'", 'ok', lambda: 's/t/dflt.a', (('s/t', 'vw.dflt', 'a'),)),
+    ("one hook returns {'dflt.a': w, 'vw.dflt.a': w'}", 'two', None, (_A,)),
+    ("binds 'vw.case.Foo.p'", 'ok', lambda: 'vw.case.Foo.p', (('', 'vw.case.Foo', 'p'),)),
+    ("binds 'vw.case.foo.p'", 'ok', lambda: 'vw.case.foo.p', (('', 'vw.case.foo', 'p'),)),
+    ("key 'vw.dflt.zz' (no such parameter)", 'bad', lambda: 'vw.dflt.zz', ()),
+    ("key 'vw.deny_b.b' (denylisted)", 'bad', lambda: 'vw.deny_b.b', ()),
+    ("key 'vw.allow_a.b' (not allowlisted)", 'bad', lambda: 'vw.allow_a.b', ()),
+    ("key 'meth.a' (method without its class)", 'bad', lambda: 'meth.a', ()),
+    ("key 'fam.p' (ambiguous selector)", 'bad', lambda: 'fam.p', ()),
+    ("binds 'vw.kws.anything' (**kwargs)", 'ok', lambda: 'vw.kws.anything', (('', 'vw.kws', 'anything'),)),
+    ("binds 'vw.Kmeth.meth.a'", 'ok', lambda: 'vw.Kmeth.meth.a', (('', 'vw.Kmeth.meth', 'a'),)),
+    ("key ('vw.dflt', 'a') (2-tuple)", 'bad', lambda: ('vw.dflt', 'a'), ()),
+    ("key ('', 'vw.dflt', 'a', 'x') (4-tuple)", 'bad', lambda: ('', 'vw.dflt', 'a', 'x'), ()),
+    ('key 5 (not a string)', 'bad', lambda: 5, ()),
+    ('raises its own exception', 'raise', None, ()),
+    ("returns a list [('vw.dflt.a', w)]", 'nonmap', None, ()),
+]
+HOOK_KINDS = [h_[0] for h_ in HOOKS]
+NHOOK = len(HOOKS)
 FAULTS = ['none', 'unbound macro', 'unevaluated macro reference', 'unknown-reference placeholder',
-          '%gin.REQUIRED left in place', 'macro bound and evaluated (fine)']
+          '%gin.REQUIRED left in place', 'macro bound and evaluated (fine)',
+          'unbound macro as a dict KEY', 'unknown-reference placeholder as a dict KEY',
+          'unevaluated macro reference as a dict KEY', '%gin.REQUIRED then overridden (fine)',
+          '%gin.REQUIRED overridden only in a sub-scope', 'macro defined after its use (fine)',
+          '%gin.REQUIRED on a scoped binding']
+FAULT_TEXT = {
+    1: ('vw.plain.a = %undefined_macro', False),
+    2: ('m = 1\nvw.plain.a = @m/gin.macro', False),
+    3: ('vw.plain.a = [1, {"k": (@nosuch(),)}]', True),
+    4: ('vw.plain.a = %gin.REQUIRED', False),
+    5: ('m = 1\nvw.plain.a = %m', False),
+    6: ('vw.plain.a = {%undefined_macro: 1}', False),
+    7: ('vw.plain.a = {@nosuch(): 1}', True),
+    8: ('m = 1\nvw.plain.a = {@m/gin.macro: 1}', False),
+    9: ('vw.plain.a = %gin.REQUIRED\nvw.plain.a = 3', False),
+    10: ('vw.plain.a = %gin.REQUIRED\ns/vw.plain.a = 3', False),
+    11: ('vw.plain.a = %m\nm = 1', False),
+    12: ('s/vw.plain.a = %gin.REQUIRED', False),
+}
+FAULT_REJECTS = (1, 2, 3, 4, 6, 7, 8, 10, 12)
+FAULT_STRINGIFIES = (1, 2, 6, 8)     # the rejection message embeds config_str()
+HISTORIES = ['one finalize', 'rejected by a fault, fault repaired with bind_parameter, finalize again',
+             'finalize, clear_config, finalize again', 'the first hook function is registered twice',
+             'finalize, unlock_config block parses a faulty binding, finalize again']
 
 
-def c12_finalize(h1: int, h2: int, fault: int, has: bool, v0: int, w1: int, w2: int) -> bool:
-  """
-  pre: 0 <= h1 < 9 and 0 <= h2 < 9 and 0 <= fault < 6
-  """
-  world.fresh()
-  h1 = rt.pick(h1, 9)
-  h2 = rt.pick(h2, 9)
-  fault = rt.pick(fault, 6)
-  has = rt.flag(has)
-  if fault in (1, 2):
-    # the error message of these two faults embeds config_str(), i.e. Gin
+def _finalize_case(kinds, vals, fault, has, under, hist, v0):
+  """kinds: concrete hook kinds in registration order; vals: the values they return."""
+  if fault in FAULT_STRINGIFIES:
+    # the error message of these faults embeds config_str(), i.e. Gin
     # stringifies every bound value: S-inputs must not reach a stringifier
     # (DESIGN.md section 2), so the pre-existing value is concrete here.
     v0 = 41
   if has:
     gin.bind_parameter('vw.dflt.a', v0)
-  with rt.native():
-    if fault == 1:
-      gin.parse_config('vw.plain.a = %undefined_macro')
-    elif fault == 2:
-      gin.parse_config('m = 1\nvw.plain.a = @m/gin.macro')
-    elif fault == 3:
-      gin.parse_config('vw.plain.a = [1, {"k": (@nosuch(),)}]', skip_unknown=True)
-    elif fault == 4:
-      gin.parse_config('vw.plain.a = %gin.REQUIRED')
-    elif fault == 5:
-      gin.parse_config('m = 1\nvw.plain.a = %m')
+  if fault:
+    with rt.native():
+      gin.parse_config(FAULT_TEXT[fault][0], skip_unknown=FAULT_TEXT[fault][1])
   seen = []
+  alts = []
 
   def mk(kind, val):
+    mode = HOOKS[kind][1]
+
     def hook(config):
-      snap = {}
-      for k, d in config.items():
-        snap[k] = dict(d)
-      seen.append(snap)
-      if kind == 1:
+      with rt.native():
+        seen.append({k: dict(d) for k, d in config.items()})
+      if mode == 'none':
         return None
-      if kind == 2:
+      if mode == 'empty':
         return {}
-      return {HOOK_KEYS[kind]: val}
+      if mode == 'raise':
+        raise Boom()
+      if mode == 'nonmap':
+        return [('vw.dflt.a', val)]
+      if mode == 'two':
+        alts.append(val + 1)
+        return {'dflt.a': val, 'vw.dflt.a': alts[-1]}
+      if mode == 'proxy':
+        return _types.MappingProxyType({HOOKS[kind][2](): val})
+      return {HOOKS[kind][2](): val}
     return hook
 
-  if h1:
-    gin.config.register_finalize_hook(mk(h1, w1))
-  if h2:
-    gin.config.register_finalize_hook(mk(h2, w2))
-  pre_cfg = {}
-  for k, d in gc._CONFIG.items():
-    pre_cfg[k] = dict(d)
-  before = _snapshot()
-  rt.sig(('finalize', h1, h2, fault, has), nontrivial=(h1 >= 3 or h2 >= 3 or fault != 0))
-  exc = None
-  try:
-    gin.finalize()
-  except Exception as e:
-    exc = e
-  after = _snapshot()
-  t1, t2 = HOOK_TARGET.get(h1), HOOK_TARGET.get(h2)
-  reject = fault in (1, 2, 3, 4) or h1 == 7 or h2 == 7 or (t1 is not None and t1 == t2)
-  # every hook that ran saw the configuration as parsed
-  for s in seen:
-    if s != pre_cfg:
+  nreg = 0
+  for i, kind in enumerate(kinds):
+    if kind:
+      fn = mk(kind, vals[i])
+      gin.config.register_finalize_hook(fn)
+      nreg += 1
+      if hist == 3 and i == 0:
+        gin.config.register_finalize_hook(fn)
+        nreg += 1
+  modes = [HOOKS[k][1] for k in kinds if k]
+  unknown = 'unknown' in modes
+  bad = 'bad' in modes
+  lenient = ('two' in modes or 'raise' in modes or 'nonmap' in modes or
+             (hist == 3 and kinds[0] and bool(HOOKS[kinds[0]][3])))
+  conflict = False
+  updates = []
+  for i, kind in enumerate(kinds):
+    for t in HOOKS[kind][3]:
+      if any(t == u[:3] for u in updates):
+        conflict = True
+      updates.append(t + (vals[i],))
+
+  def attempt(fault_rejects, scoped):
+    """One gin.finalize(); returns (verdict, accepted?) - verdict False = property violated."""
+    del seen[:]
+    wb = _wide()
+    exc = None
+    try:
+      if scoped:
+        with gin.config_scope('s'):
+          gin.finalize()
+      else:
+        gin.finalize()
+    except Exception as e:
+      exc = e
+    wa = _wide()
+    is_locked = gin.config_is_locked()
+    # every hook that ran saw the configuration as parsed
+    for s_ in seen:
+      if not _cfg_same(s_, wb['cfg']):
+        return rt.no('a hook did not see the configuration as parsed'), False
+    strict = fault_rejects or unknown or conflict
+    if strict or bad:
+      plain = strict and not bad and not lenient
+      if exc is None:
+        return rt.no('finalize accepted what it must reject'), False
+      if plain and not isinstance(exc, ValueError):
+        return rt.no('rejected with %s' % (type(exc).__name__,)), False
+      if is_locked:
+        return rt.no('rejected but left locked'), False
+      d = _wide_diff(wb, wa)
+      if d:
+        return rt.no('rejected but changed %s' % (d,)), False
+      return True, False
+    if lenient:
+      # the statement only fixes that the outcome is clean: rejected = unlocked and unmodified
+      if exc is not None:
+        d = _wide_diff(wb, wa)
+        if is_locked or d:
+          return rt.no('hook failure left the configuration locked or modified (%s)' % (d,)), False
+        return True, False
+      return (True if is_locked else rt.no('accepted but not locked')), None
+    if exc is not None or not is_locked:
+      return rt.no('finalize failed: %r' % (exc,)), False
+    if len(seen) != nreg:
+      return rt.no('%d of %d hooks ran' % (len(seen), nreg)), False
+    want = _cfg_plus(wb['cfg'], updates)
+    if not _cfg_same(wa['cfg'], want):
+      return rt.no('bindings after finalize are not parsed + hook updates'), False
+    d = _wide_diff(wb, wa, ('imports', 'consts', 'registry', 'renamed'))
+    if d:
+      return rt.no('finalize changed %s' % (d,)), False
+    return True, True
+
+  def twice():
+    # finalizing twice is an error and changes nothing
+    wb = _wide()
+    try:
+      gin.finalize()
+      return rt.no('second finalize accepted')
+    except RuntimeError:
+      pass
+    if not gin.config_is_locked():
+      return rt.no('second finalize unlocked')
+    d = _wide_diff(wb, _wide())
+    if d:
+      return rt.no('second finalize changed %s' % (d,))
+    return True
+
+  ok, accepted = attempt(fault in FAULT_REJECTS, under)
+  if not ok:
+    return False
+  if hist in (0, 3):
+    return twice() if accepted else True
+  if hist == 1:
+    if accepted is not False:
+      return True                      # (lenient outcome: nothing more to say)
+    gin.bind_parameter('s/vw.plain.a' if fault == 12 else 'vw.plain.a', 5)
+    ok, accepted = attempt(False, False)
+    if not ok:
       return False
-  if reject:
-    return (isinstance(exc, ValueError) and not gin.config_is_locked() and
-            after == before)
-  if exc is not None or not gin.config_is_locked():
-    return False
-  if len(seen) != (1 if h1 else 0) + (1 if h2 else 0):
-    return False
-  want = dict(before)
-  for t, w in ((t1, w1), (t2, w2)):
-    if t is not None:
-      want[(t[0] + '/' if t[0] else '') + 'vw.dflt.' + t[1]] = w
-  if after != want:
-    return False
-  # finalizing twice is an error and changes nothing
-  try:
-    gin.finalize()
-    return False
-  except RuntimeError:
-    pass
-  return gin.config_is_locked() and _snapshot() == want
+    return twice() if accepted else True
+  if not accepted:
+    return True
+  if hist == 2:
+    gin.clear_config()
+    if gin.config_is_locked():
+      return rt.no('clear_config left the lock')
+    ok, accepted = attempt(False, False)      # the hooks run again, on the empty configuration
+    if not ok:
+      return False
+    return twice() if accepted else True
+  # hist 4: a fault introduced inside an unlock_config block; the lock is back, finalize stays an error
+  with gin.unlock_config():
+    with rt.native():
+      gin.parse_config('vw.plain.a = %undefined_macro')
+  if not gin.config_is_locked():
+    return rt.no('unlock_config did not restore the lock')
+  return twice()
+
+
+def c12_finalize(h1: int, h2: int, fault: int, has: bool, under: bool, deep: bool, v0: int, w1: int, w2: int) -> bool:
+  """
+  pre: 0 <= h1 < 9 and 0 <= h2 < 9 and 0 <= fault < 13
+  """
+  h1 = rt.pick(h1, 9)
+  h2 = rt.pick(h2, 9)
+  fault = rt.pick(fault, 13)
+  has = rt.flag(has)
+  under = rt.flag(under)           # gin.finalize() called inside an active gin.config_scope('s')
+  if under and h2 and not deep:
+    rt.discard()                   # quick tier: one hook when finalize runs inside a scope
+  world.fresh()
+  rt.sig(('finalize', h1, h2, fault, has, under), nontrivial=(h1 >= 3 or h2 >= 3 or fault != 0))
+  return _finalize_case((h1, h2), (w1, w2), fault, has, under, 0, v0)
+
+
+def c12_hookkeys(k1: int, k2: int, has: bool, w1: int, w2: int) -> bool:
+  """
+  pre: 0 <= k1 < 30 and 0 <= k2 < 30
+  """
+  k1 = rt.pick(k1, NHOOK)
+  k2 = rt.pick(k2, NHOOK)
+  has = rt.flag(has)
+  if k1 < 9 and k2 < 9:
+    rt.discard()                   # c12_finalize
+  world.fresh()
+  rt.sig(('hookkeys', k1, k2, has), nontrivial=True)
+  return _finalize_case((k1, k2), (w1, w2), 0, has, False, 0, 41)
+
+
+HIST_HOOKS = (0, 3, 4, 5, 8, 10)
+
+
+def c12_history(hist: int, g1: int, g2: int, g3: int, fault: int, deep: bool, w1: int, w2: int, w3: int) -> bool:
+  """
+  pre: 0 <= hist < 5 and 0 <= g1 < 6 and 0 <= g2 < 6 and 0 <= g3 < 6 and 0 <= fault < 13
+  """
+  hist = rt.pick(hist, 5)
+  fault = rt.pick(fault, 13)
+  if hist == 1:
+    if fault not in (1, 2, 3, 4, 10, 12):
+      rt.discard()
+  elif hist == 2:
+    if fault not in (0, 5, 9, 11):
+      rt.discard()
+  elif fault != 0:
+    rt.discard()
+  g1, g2, g3 = rt.pick(g1, 6), rt.pick(g2, 6), rt.pick(g3, 6)
+  if hist != 0 and g3 != 0 and not deep:
+    rt.discard()                   # quick tier: three hooks only in the single-finalize history
+  world.fresh()
+  rt.sig(('history', hist, g1, g2, g3, fault), nontrivial=True)
+  kinds = (HIST_HOOKS[g1], HIST_HOOKS[g2], HIST_HOOKS[g3])
+  return _finalize_case(kinds, (w1, w2, w3), fault, True, False, hist, 41)
 
 
 def c12_deferred(created_locked: bool, change: int, how: int, raises: bool, v1: int) -> bool:
@@ -349,24 +744,110 @@ HARNESSES = {
         fn='c12_step',
         anchors=['gin.config:unlock_config', 'gin.config:finalize', 'gin.config:bind_parameter',
                  'gin.config:_make_configurable'],
-        smoke=[dict(locked=True, has=True, op=5, body=1, regkind=0, v0=1, v1=2, v2=3),
-               dict(locked=True, has=True, op=2, body=0, regkind=0, v0=1, v1=2, v2=3),
-               dict(locked=True, has=False, op=2, body=0, regkind=2, v0=1, v1=2, v2=3)],
+        smoke=[dict(locked=True, has=True, op=5, body=1, regkind=0, sub=0, v0=1, v1=2, v2=3),
+               dict(locked=True, has=True, op=2, body=0, regkind=0, sub=0, v0=1, v1=2, v2=3),
+               dict(locked=True, has=False, op=2, body=0, regkind=2, sub=0, v0=1, v1=2, v2=3),
+               dict(locked=True, has=False, op=2, body=0, regkind=4, sub=0, v0=1, v1=2, v2=3),
+               dict(locked=False, has=False, op=2, body=0, regkind=5, sub=0, v0=1, v1=2, v2=3)] +
+              [dict(locked=True, has=True, op=0, body=0, regkind=0, sub=k_, v0=1, v1=2, v2=3) for k_ in (1, 2, 3)] +
+              [dict(locked=l_, has=True, op=1, body=0, regkind=0, sub=k_, v0=1, v1=2, v2=3)
+               for k_ in range(1, 10) for l_ in (True, False)],
         tiers={'quick': dict(split=dict(op=list(range(6))), budget_s=100),
                'thorough': dict(split=dict(op=list(range(6)), locked=[False, True]), budget_s=300)},
-        bounds='one operation from every (locked?, binding present?) state: bind, parse_config, register (a function, a class '
+        bounds='one operation from every (locked?, binding present?) state: bind_parameter (string key, tuple key, '
+               'ParsedBindingKey, unknown configurable), parse (two bindings, a macro statement, an import alone, an include '
+               'through the in-memory file system, parse_config_file, parse_config_files_and_bindings with and without '
+               'finalize_config, a dynamic-registration text whose value registers a configurable, gin.constant, import + '
+               'binding), register (a function through external_configurable / bare @configurable / register(), a class '
                'decorated in place, a class with a separately registered method through external_configurable / register), '
                'finalize, clear_config, unlock_config with 9 body shapes (nop, bind, raise, nested, nested '
-               'raising caught, nested raising propagating, finalize inside, finalize then raise, nested block that finalizes); values: all ints. Inductive step: covers '
+               'raising caught, nested raising propagating, finalize inside, finalize then raise, nested block that finalizes); '
+               'values: all ints. A rejected operation is compared on the whole store (every _CONFIG key with value identities, '
+               'provenance keys, imports, constants, registry selectors, renames). Inductive step: covers '
                'histories of any length over this state space.'),
     'c12_finalize': dict(
         fn='c12_finalize',
         anchors=['gin.config:finalize', 'gin.config:validate_macros_hook',
                  'gin.config:find_unknown_references_hook', 'gin.config:find_missing_overrides_hook'],
-        smoke=[dict(h1=3, h2=4, fault=0, has=True, v0=1, w1=2, w2=3),
-               dict(h1=0, h2=0, fault=3, has=False, v0=1, w1=2, w2=3)],
-        tiers={'quick': dict(split=dict(h1=list(range(9)), fault=list(range(6))), budget_s=100),
-               'thorough': dict(split=dict(h1=list(range(9)), h2=list(range(9))), budget_s=300)},
+        smoke=[dict(h1=3, h2=4, fault=0, has=True, under=False, deep=False, v0=1, w1=2, w2=3),
+               dict(h1=0, h2=0, fault=3, has=False, under=False, deep=False, v0=1, w1=2, w2=3),
+               dict(h1=3, h2=0, fault=0, has=True, under=True, deep=False, v0=1, w1=2, w2=3),
+               dict(h1=0, h2=0, fault=4, has=True, under=True, deep=False, v0=1, w1=2, w2=3),
+               dict(h1=3, h2=0, fault=9, has=True, under=False, deep=False, v0=1, w1=2, w2=3),
+               dict(h1=0, h2=3, fault=10, has=True, under=False, deep=False, v0=1, w1=2, w2=3),
+               dict(h1=3, h2=0, fault=11, has=True, under=False, deep=False, v0=1, w1=2, w2=3),
+               dict(h1=0, h2=0, fault=12, has=True, under=False, deep=False, v0=1, w1=2, w2=3),
+               dict(h1=0, h2=0, fault=1, has=True, under=True, deep=False, v0=1, w1=2, w2=3),
+               dict(h1=0, h2=0, fault=2, has=True, under=True, deep=False, v0=1, w1=2, w2=3),
+               dict(h1=0, h2=0, fault=6, has=True, under=False, deep=False, v0=1, w1=2, w2=3),
+               dict(h1=0, h2=0, fault=7, has=True, under=False, deep=False, v0=1, w1=2, w2=3),
+               dict(h1=0, h2=0, fault=8, has=True, under=False, deep=False, v0=1, w1=2, w2=3)],
+        tiers={'quick': dict(split=dict(fault=list(range(13)), has=[False, True]), fixed=dict(deep=False), budget_s=100),
+               'thorough': dict(split=dict(fault=list(range(13)), has=[False, True], under=[False, True]),
+                                fixed=dict(deep=True), budget_s=300)},
         bounds='two extra hooks x 9 behaviours (incl. 4 spellings of one parameter, a scoped key, an invalid '
-               'key) x 6 config faults; hook values: all ints'),
+               'key) x 13 config states (unbound / unevaluated macro, unknown-reference placeholder, each also as a '
+               'dict KEY; %gin.REQUIRED at root, on a scoped binding, overridden, overridden only in a sub-scope; macro '
+               'defined after its use) x finalize called at top level or inside an active config_scope (quick: one hook; '
+               'thorough: two); '
+               'hook values: all ints; whole-store observation (every _CONFIG key with value identities, provenance '
+               'keys, imports, constants, registry selectors) before/after'),
+    'c12_hookkeys': dict(
+        fn='c12_hookkeys',
+        anchors=['gin.config:finalize', 'gin.config:parse', 'gin.config:bind_parameter'],
+        smoke=[dict(k1=9, k2=11, has=True, w1=2, w2=3), dict(k1=10, k2=8, has=True, w1=2, w2=3),
+               dict(k1=12, k2=13, has=False, w1=2, w2=3), dict(k1=14, k2=8, has=True, w1=2, w2=3),
+               dict(k1=15, k2=0, has=True, w1=2, w2=3), dict(k1=16, k2=17, has=True, w1=2, w2=3),
+               dict(k1=3, k2=18, has=True, w1=2, w2=3), dict(k1=3, k2=19, has=True, w1=2, w2=3),
+               dict(k1=3, k2=20, has=True, w1=2, w2=3), dict(k1=3, k2=21, has=True, w1=2, w2=3),
+               dict(k1=3, k2=22, has=True, w1=2, w2=3), dict(k1=23, k2=24, has=True, w1=2, w2=3),
+               dict(k1=3, k2=25, has=True, w1=2, w2=3), dict(k1=3, k2=26, has=True, w1=2, w2=3),
+               dict(k1=3, k2=27, has=True, w1=2, w2=3), dict(k1=3, k2=28, has=True, w1=2, w2=3),
+               dict(k1=3, k2=29, has=True, w1=2, w2=3), dict(k1=28, k2=3, has=True, w1=2, w2=3)],
+        tiers={'quick': dict(split=dict(k1=list(range(30))), budget_s=100),
+               'thorough': dict(split=dict(k1=list(range(30))), budget_s=300)},
+        bounds='two extra hooks x 30 behaviours (all pairs not already in c12_finalize): scoped spellings of one parameter '
+               "('s/dflt.a', 's/vw.dflt.a', tuples with full / partial selector), a two-level scope, a ParsedBindingKey, a "
+               'mappingproxy, one hook returning two spellings of one parameter, names differing only in case, **kwargs and '
+               'method parameters, keys refused by ParsedBindingKey.parse (unknown parameter, denylisted, not allowlisted, '
+               'method without class, ambiguous selector, 2-/4-tuples, non-string), a hook that raises its own exception, a '
+               'hook that returns a list; no config fault; whole-store observation before/after'),
+    'c12_history': dict(
+        fn='c12_history',
+        anchors=['gin.config:finalize', 'gin.config:clear_config', 'gin.config:unlock_config',
+                 'gin.config:bind_parameter'],
+        smoke=[dict(hist=0, g1=2, g2=1, g3=3, fault=0, deep=False, w1=2, w2=3, w3=4),
+               dict(hist=1, g1=1, g2=2, g3=0, fault=1, deep=False, w1=2, w2=3, w3=4),
+               dict(hist=1, g1=1, g2=4, g3=0, fault=12, deep=False, w1=2, w2=3, w3=4),
+               dict(hist=2, g1=1, g2=2, g3=0, fault=9, deep=False, w1=2, w2=3, w3=4),
+               dict(hist=3, g1=1, g2=2, g3=0, fault=0, deep=False, w1=2, w2=3, w3=4),
+               dict(hist=4, g1=1, g2=2, g3=0, fault=0, deep=False, w1=2, w2=3, w3=4)],
+        tiers={'quick': dict(split=dict(hist=list(range(5))), fixed=dict(deep=False), budget_s=100),
+               'thorough': dict(split=dict(hist=list(range(5)), g1=list(range(6))), fixed=dict(deep=True), budget_s=300)},
+        bounds='5 histories around finalize (single finalize with THREE hooks - thorough: three hooks in every history; rejected by one of 6 faults, repaired with '
+               'bind_parameter, finalized again; finalize, clear_config, finalize; first hook registered twice; finalize, '
+               'unlock_config block that parses a faulty binding, finalize again) x hooks from 6 behaviours (absent, '
+               "'vw.dflt.b', 'dflt.a', 'vw.dflt.a', 's/dflt.a', ('s','vw.dflt','a')); hook values: all ints"),
 }
+
+OUTSIDE = ('not exercised: hooks that mutate the config argument, bind / parse / finalize / clear_config / unlock_config / '
+           'register another hook re-entrantly from inside a hook; hook VALUES that are themselves faults (a hook returning '
+           '%gin.REQUIRED, an unbound macro or an unknown-reference placeholder); %gin.REQUIRED nested in a container, reached '
+           'through a macro, bound through the API or spelled %REQUIRED; a macro bound only at a prefix scope; '
+           'unlock_config left through KeyboardInterrupt / StopIteration / generator suspension or entered non-LIFO; '
+           'constants_from_enum; re-registration of an already registered object; operations from several threads.')
+ASSUMPTIONS = [
+    'the statement is read as silent on (accepted either way, but the outcome must be clean: an exception with the '
+    'configuration unlocked and whole-store unchanged, or no exception and locked): one hook returning two spellings of '
+    'one parameter, one hook function registered twice, a hook raising its own exception, a hook returning a non-mapping',
+    'hook keys refused by ParsedBindingKey.parse on other branches (unknown parameter, denylisted, not allowlisted, method '
+    'without class, ambiguous selector, wrong-arity tuples, non-string) must be rejected by finalize with SOME exception '
+    '(the type is not fixed by the statement); conflicts, config faults and the original unknown-configurable key must '
+    'raise ValueError (as before)',
+    'under lock an import statement alone and gin.constant() are neither a binding nor a registration: they may raise or '
+    'not, but may not change a binding, the registry or the lock; bind_parameter to an unknown configurable must raise '
+    '(either exception) in both lock states',
+    'whole-store observation reads gin.config module state (_CONFIG, _CONFIG_PROVENANCE, _IMPORTS, _CONSTANTS, _REGISTRY, '
+    '_RENAMED_SELECTORS) directly; values are compared by identity, falling back to == only for distinct non-literal objects',
+    'fixture package /verif/fixtures/vfx (vfx.alpha.mod) is the target of import statements and of dynamic registration',
+]
